@@ -426,3 +426,163 @@ theorem matches_inBounds (text : Str) (edits : List MEdit) (h : FzInBounds text 
   exact findMatch_bound text ed.target ed.fz m.s m.e (h ed hmem) hf
 
 end Adeu.Markup
+
+/-! ### reading the rendering back -/
+namespace Adeu.Markup
+open Adeu
+
+theorem rejectView_flushPlain (acc : Str) : rejectView (flushPlain acc) = acc := by
+  unfold flushPlain; split <;> simp_all [Seg.rejected]
+
+theorem acceptView_flushPlain (acc : Str) : acceptView (flushPlain acc) = acc := by
+  unfold flushPlain; split <;> simp_all [Seg.accepted]
+
+theorem rejectView_normAcc (segs : List Seg) : ∀ acc, rejectView (normAcc acc segs) = acc ++ rejectView segs := by
+  induction segs with
+  | nil => intro acc; simp [normAcc, rejectView_flushPlain]
+  | cons sg rest ih =>
+    intro acc
+    cases sg <;> simp [normAcc, ih, rejectView_flushPlain, Seg.rejected]
+
+theorem acceptView_normAcc (segs : List Seg) : ∀ acc, acceptView (normAcc acc segs) = acc ++ acceptView segs := by
+  induction segs with
+  | nil => intro acc; simp [normAcc, acceptView_flushPlain]
+  | cons sg rest ih =>
+    intro acc
+    cases sg <;> simp [normAcc, ih, acceptView_flushPlain, Seg.accepted]
+
+theorem no_opener (c : Char) (r : Str) (hc : c ≠ '{') :
+    openers.find? (fun o => o.1.isPrefixOf (c :: r)) = none := by
+  rw [List.find?_eq_none]
+  intro o ho
+  simp only [openers, List.mem_cons, List.not_mem_nil, or_false] at ho
+  rcases ho with rfl | rfl | rfl | rfl <;> simp [List.isPrefixOf, hc.symm, Ne.symm hc]
+
+/-- plain text without '{' is collected character by character -/
+theorem parseFuel_plain (s : Str) (hs : ∀ c ∈ s, c ≠ '{') : ∀ (n : Nat) (acc tail : Str),
+    s.length + tail.length ≤ n → parseFuel n acc (s ++ tail) = parseFuel (n - s.length) (acc ++ s) tail := by
+  induction s with
+  | nil => intro n acc tail _; simp
+  | cons c s ih =>
+    intro n acc tail hn
+    cases n with
+    | zero => simp at hn
+    | succ n =>
+      have hc : c ≠ '{' := hs c (by simp)
+      simp only [List.cons_append, parseFuel, no_opener c (s ++ tail) hc]
+      rw [ih (fun x hx => hs x (by simp [hx])) n (acc ++ [c]) tail (by simp at hn; omega)]
+      simp
+
+theorem splitAtFirst_closer (cl s tail : Str) (hcl : cl ≠ []) (hlast : cl.getLast? = some '}')
+    (hs : ∀ c ∈ s, c ≠ '}') (hcl' : ∀ c ∈ cl.dropLast, c ≠ '}') :
+    splitAtFirst cl (s ++ cl ++ tail) = some (s, tail) := by
+  induction s with
+  | nil =>
+    simp only [List.nil_append]
+    cases h : cl ++ tail with
+    | nil => simp at h; exact absurd h.1 hcl
+    | cons c r =>
+      unfold splitAtFirst
+      have : cl.isPrefixOf (c :: r) = true := by
+        rw [← h, List.isPrefixOf_iff_prefix]; exact List.prefix_append _ _
+      simp only [this, ↓reduceIte]
+      rw [← h]; simp
+  | cons c s ih =>
+    simp only [List.cons_append]
+    unfold splitAtFirst
+    have hnp : cl.isPrefixOf (c :: (s ++ cl ++ tail)) = false := by
+      -- a prefix match would put '}' (the last character of `cl`) inside `c :: s` or inside `cl` before its end
+      rw [Bool.eq_false_iff]
+      intro hp
+      rw [List.isPrefixOf_iff_prefix] at hp
+      obtain ⟨t, ht⟩ := hp
+      -- position of the last char of cl inside c :: s ++ cl ++ tail is < |c::s| + |cl| - 1, i.e. in (c::s) ++ cl.dropLast
+      have hlen : cl.length ≥ 1 := by
+        cases cl with
+        | nil => exact absurd rfl hcl
+        | cons _ _ => simp
+      have hget : (c :: (s ++ cl ++ tail))[cl.length - 1]? = some '}' := by
+        rw [← ht]
+        rw [List.getElem?_append_left (by omega)]
+        rw [List.getLast?_eq_getElem?] at hlast
+        exact hlast
+      -- but that position lies in (c :: s) ++ cl.dropLast, where no '}' is
+      have hsplit : c :: (s ++ cl ++ tail) = ((c :: s) ++ cl.dropLast) ++ ([cl.getLast (by simpa using hcl)] ++ tail) := by
+        have := List.dropLast_concat_getLast (by simpa using hcl : cl ≠ [])
+        simp only [List.cons_append, List.append_assoc]
+        conv => lhs; rw [← this]
+        simp
+      rw [hsplit, List.getElem?_append_left (by simp; omega)] at hget
+      have hmem := List.mem_of_getElem? hget
+      rw [List.mem_append] at hmem
+      rcases hmem with hm | hm
+      · exact hs '}' hm rfl
+      · exact hcl' '}' hm rfl
+    simp only [hnp, Bool.false_eq_true, ↓reduceIte]
+    have := ih (fun x hx => hs x (by simp [hx]))
+    simp only [List.append_assoc] at this ⊢
+    rw [this]
+    rfl
+
+/-- The rendering of a brace-free segment list reads back as that list (adjacent plain pieces joined). -/
+theorem parseFuel_render (segs : List Seg) (hb : BraceFree segs) : ∀ (n : Nat) (acc : Str),
+    (render segs).length ≤ n → parseFuel n acc (render segs) = some (normAcc acc segs) := by
+  induction segs with
+  | nil =>
+    intro n acc _
+    cases n <;> simp [parseFuel, normAcc]
+  | cons sg rest ih =>
+    intro n acc hn
+    have hrest : BraceFree rest := fun x hx => hb x (by simp [hx])
+    have hsg := hb sg (by simp)
+    have block : ∀ (op cl : Str) (mk : Str → Seg) (s : Str), sg.content = s →
+        (op, cl, mk) ∈ openers → openers.find? (fun o => o.1.isPrefixOf (op ++ (s ++ cl ++ render rest))) = some (op, cl, mk) →
+        op.length = 3 → cl ≠ [] → cl.getLast? = some '}' → (∀ c ∈ cl.dropLast, c ≠ '}') →
+        render (sg :: rest) = op ++ (s ++ cl ++ render rest) →
+        normAcc acc (sg :: rest) = flushPlain acc ++ mk s :: normAcc [] rest →
+        parseFuel n acc (render (sg :: rest)) = some (normAcc acc (sg :: rest)) := by
+      intro op cl mk s hcont _ hfind hop hcl hlast hdl hrender hnorm
+      rw [hrender, hnorm]
+      have hlen : (op ++ (s ++ cl ++ render rest)).length ≤ n := by rw [← hrender]; exact hn
+      cases hopc : op with
+      | nil => simp [hopc] at hop
+      | cons c r =>
+        cases n with
+        | zero => simp [hopc] at hlen
+        | succ n =>
+          simp only [List.cons_append, parseFuel]
+          rw [hopc] at hfind
+          simp only [List.cons_append] at hfind
+          rw [hfind]
+          simp only
+          have hdrop : (c :: (r ++ (s ++ cl ++ render rest))).drop 3 = s ++ cl ++ render rest := by
+            have : (c :: r).length = 3 := by rw [← hopc]; exact hop
+            have : c :: (r ++ (s ++ cl ++ render rest)) = (c :: r) ++ (s ++ cl ++ render rest) := rfl
+            rw [this, List.drop_left' (by rw [← hopc]; exact hop)]
+          rw [hdrop, splitAtFirst_closer cl s (render rest) hcl hlast
+            (fun x hx => (hsg x (by rw [hcont]; exact hx)).2) hdl]
+          simp only
+          rw [ih hrest n [] (by simp [hopc] at hlen; omega)]
+          rfl
+    cases sg with
+    | plain s =>
+      simp only [render_cons, Seg.render, normAcc]
+      rw [parseFuel_plain s (fun c hc => (hsg c hc).1) n acc (render rest) (by simpa [render_cons, Seg.render] using hn)]
+      exact ih hrest _ _ (by simp [render_cons, Seg.render] at hn; omega)
+    | del s =>
+      exact block "{--".toList "--}".toList Seg.del s rfl (by simp [openers]) (by simp [openers, List.isPrefixOf])
+        rfl (by simp) (by decide) (by decide) (by simp [render_cons, Seg.render]) (by simp [normAcc])
+    | ins s =>
+      exact block "{++".toList "++}".toList Seg.ins s rfl (by simp [openers]) (by simp [openers, List.isPrefixOf])
+        rfl (by simp) (by decide) (by decide) (by simp [render_cons, Seg.render]) (by simp [normAcc])
+    | hl s =>
+      exact block "{==".toList "==}".toList Seg.hl s rfl (by simp [openers]) (by simp [openers, List.isPrefixOf])
+        rfl (by simp) (by decide) (by decide) (by simp [render_cons, Seg.render]) (by simp [normAcc])
+    | note s =>
+      exact block "{>>".toList "<<}".toList Seg.note s rfl (by simp [openers]) (by simp [openers, List.isPrefixOf])
+        rfl (by simp) (by decide) (by decide) (by simp [render_cons, Seg.render]) (by simp [normAcc])
+
+theorem parse_render (segs : List Seg) (hb : BraceFree segs) : parse (render segs) = some (normAcc [] segs) :=
+  parseFuel_render segs hb _ [] (Nat.le_refl _)
+
+end Adeu.Markup
